@@ -1,6 +1,7 @@
 package sim
 
 import (
+	"bufio"
 	"fmt"
 	"io"
 	"net/http"
@@ -150,18 +151,37 @@ type HTTPCall struct {
 	RespHeader http.Header
 	CIdx       int
 	Meta       any
+	Seq        uint64 // sequence number when the request was made
+	DoneSeq    uint64
 }
 
 func (s *Sim) httpDo(method, path, body string, hdr http.Header) *HTTPCall {
-	h := &HTTPCall{s: s, N: len(s.HTTP), Method: method, Path: path, Body: body, Header: hdr, Step: s.Step, Cut: s.Cut, done: make(chan struct{}), CIdx: -1}
-	var rd io.Reader
+	h := &HTTPCall{s: s, Seq: s.seqNow(), N: len(s.HTTP), Method: method, Path: path, Body: body, Header: hdr, Step: s.Step, Cut: s.Cut, done: make(chan struct{}), CIdx: -1}
+	// the request as net/http's server would hand it to the handler: built from
+	// the request line and header block, so that targets the server itself
+	// refuses (400) never reach the gateway
+	var raw strings.Builder
+	target := path
+	if target == "" {
+		target = "/"
+	}
+	fmt.Fprintf(&raw, "%s %s HTTP/1.1\r\nHost: example.org\r\n", method, target)
+	for _, k := range sortedKeys(hdr) {
+		for _, v := range hdr[k] {
+			fmt.Fprintf(&raw, "%s: %s\r\n", k, v)
+		}
+	}
 	if body != "" {
-		rd = strings.NewReader(body)
+		fmt.Fprintf(&raw, "Content-Length: %d\r\n", len(body))
 	}
-	req := httptest.NewRequest(method, "http://example.org"+path, rd)
-	for k, v := range hdr {
-		req.Header[k] = v
+	raw.WriteString("\r\n")
+	raw.WriteString(body)
+	req, err := http.ReadRequest(bufio.NewReader(strings.NewReader(raw.String())))
+	if err != nil {
+		s.stat("http_request_refused_by_server", 1)
+		return nil
 	}
+	req.RemoteAddr = "192.0.2.1:1234"
 	h.rec = httptest.NewRecorder()
 	s.HTTP = append(s.HTTP, h)
 	s.obs("http", fmt.Sprintf("%d %s %s %s", h.N, method, path, body))
@@ -180,6 +200,7 @@ func (h *HTTPCall) poll() {
 	case <-h.done:
 		h.Done = true
 		h.DoneStep, h.DoneCut = h.s.Step, h.s.Cut
+		h.DoneSeq = h.s.seqNow()
 		h.Status = h.rec.Code
 		h.RespBody = h.rec.Body.String()
 		h.RespHeader = h.rec.Header()
